@@ -89,7 +89,9 @@ pub fn run_script(sim: &Sim, idx: u64) {
         for i in 0..64u64 {
             handler.add_script(i, Script { msgs: vec![b"pong".to_vec()], ..Default::default() });
         }
-        let _srv = spawn_server::<std::future::Pending<()>>(&handler, &no_comp(), &ServerOpts::default(), rx, None);
+        // the server's listener may first report transient accept errors: they must not keep it from
+        // accepting the connections that follow
+        let _srv = spawn_server::<std::future::Pending<()>>(&handler, &no_comp(), &ServerOpts { accept_errors_first: sim.pick(&[0u8, 0, 1, 4]), ..Default::default() }, rx, None);
         let mut ep = endpoint(&ClientOpts::default());
         if let Some(t) = connect_timeout {
             ep = ep.connect_timeout(t);
@@ -578,6 +580,56 @@ pub fn run_connect_timeout(sim: &Sim, _idx: u64) {
             Some(Err((c, m))) => v14(sim, "call-fails-although-endpoint-reachable", format!("after a timed-out attempt two calls at quiescent points failed: {c:?} {m:?}")),
             None => {}
         }
+    });
+    if out.is_none() {
+        v14(sim, "run-hangs", "the scenario did not finish within the virtual horizon".into());
+    }
+}
+
+/// An endpoint whose URI lacks a scheme (`Endpoint::from_static("sim.test:50051")` parses — as an
+/// authority): no connection can ever be made for it. Every call still gets a definite error, none
+/// hangs, nothing panics in the channel's background task, and the channel keeps answering.
+pub fn run_uri_without_scheme(sim: &Sim, _idx: u64) {
+    let lazy = sim.chance(1, 2);
+    let uri: &'static str = sim.pick(&["sim.test:50051", "sim.test:1", "localhost:50051"]);
+    sim.nontrivial();
+    sim.sample(|| format!("{} channel to {uri:?} (no scheme)", if lazy { "lazy" } else { "eager" }));
+    sim.ev(|| format!("config: lazy={lazy} uri={uri:?}"));
+    let out = run_sim(sim, Duration::from_secs(100_000), || async {
+        let (_net, connector, rx) = net_and_connector(sim, NetCfg::ideal(), vec![]);
+        let handler = Handler::new(sim);
+        for i in 0..8u64 {
+            handler.add_script(i, Script { msgs: vec![b"pong".to_vec()], ..Default::default() });
+        }
+        let _srv = spawn_server::<std::future::Pending<()>>(&handler, &no_comp(), &ServerOpts::default(), rx, None);
+        let ep = tonic::transport::Endpoint::from_static(uri);
+        let ch = if lazy {
+            ep.connect_with_connector_lazy(connector.clone())
+        } else {
+            match tokio::time::timeout(Duration::from_secs(60), ep.connect_with_connector(connector.clone())).await {
+                Err(_) => return v14(sim, "eager-connect-hangs", format!("connect to {uri:?} did not resolve")),
+                Ok(Err(_)) => {
+                    sim.probe("eager-connect-refuses-uri-without-scheme");
+                    return;
+                }
+                Ok(Ok(c)) => c,
+            }
+        };
+        let mut outcomes = vec![];
+        for k in 0..3u64 {
+            match one_call(&ch, k + 1).await {
+                None => return v14(sim, "call-hangs", format!("call {k} on a channel to {uri:?} did not complete within 120 virtual seconds")),
+                Some(r) => outcomes.push(r.map(|_| ()).map_err(|e| e.0)),
+            }
+            tokio::time::sleep(Duration::from_millis(10)).await;
+        }
+        sim.ev(|| format!("outcomes {outcomes:?}"));
+        // whatever the first call is told, the later ones are told the same: the channel is not
+        // worse off for having been asked
+        if outcomes.iter().any(|o| *o != outcomes[0]) {
+            v14(sim, "channel-degrades-after-a-failed-call", format!("calls on a channel to {uri:?}: {outcomes:?}"));
+        }
+        sim.probe("uri-without-scheme-answered");
     });
     if out.is_none() {
         v14(sim, "run-hangs", "the scenario did not finish within the virtual horizon".into());
